@@ -476,10 +476,26 @@ structure Sim (cfg : Cfg) (x : State) (a : A) : Prop where
   pubT : a.pubT = tallyOn [] (cliMarks cfg (sinceTick .timingTick x.hist))
   pubR : a.pubR = tallyOn [] (cliMarks cfg (sinceTick .trafficTick x.hist))
 
-/-- what one observer received since the last report is a lower bound of what was handled -/
-structure RecvOK (x : State) (a : A) : Prop where
-  t : ∀ q ∈ a.recvT, q.2 ≤ handled (sinceTick .timingTick x.hist) q.1.2
-  r : ∀ q ∈ a.recvR, q.2 ≤ handled (sinceTick .trafficTick x.hist) q.1.2
+/-- frames of a manager type `t` the marks `e` record as handled outside a statistics send (nothing for other types) -/
+def hmgr (cfg : Cfg) (e : List Mark) (t : Int) : Nat := if mgrType cfg t then handled e t else 0
+
+theorem hmgr_append (cfg : Cfg) (e2 e1 : List Mark) (t : Int) : hmgr cfg (e2 ++ e1) t = hmgr cfg e2 t + hmgr cfg e1 t := by
+  unfold hmgr; split
+  · exact handled_append e2 e1 t
+  · rfl
+
+theorem hmgr_eq_mmarks (cfg : Cfg) (e : List Mark) (t : Int) : mmarks cfg t false e = hmgr cfg e t := rfl
+
+theorem hmgr_le (cfg : Cfg) (e : List Mark) (t : Int) : hmgr cfg e t ≤ handled e t := by
+  unfold hmgr; split
+  · exact Nat.le_refl _
+  · exact Nat.zero_le _
+
+/-- what one observer received since the last report is a lower bound of what was handled (and it only ever receives
+    manager-originated frames of manager types) -/
+structure RecvOK (cfg : Cfg) (x : State) (a : A) : Prop where
+  t : ∀ q ∈ a.recvT, q.2 ≤ hmgr cfg (sinceTick .timingTick x.hist) q.1.2
+  r : ∀ q ∈ a.recvR, q.2 ≤ hmgr cfg (sinceTick .trafficTick x.hist) q.1.2
 
 theorem sim_get {cfg : Cfg} {x : State} {a : A} (h : Sim cfg x a) {u : Nat} (h1 : 1 ≤ u) (h2 : u ≤ x.nextUid) :
     ∃ am, a.get u = some am ∧ am ∈ a.mods ∧ am.uid = u := by
@@ -795,7 +811,7 @@ theorem pre_sim {x : State} {a : A} (hI : MInv cfg x) (hS : Sim cfg x a) (hx : x
         preM ++ flatSegs segs ∧ NoRd preM ∧ NoRdSegs segs ∧
       MInv cfg (ioStep cfg (envStep x r) r.accept r.writable (r.reads.filter (fun rd => ((envStep x r).find rd.uid).isSome))) ∧
       Sim cfg (ioStep cfg (envStep x r) r.accept r.writable (r.reads.filter (fun rd => ((envStep x r).find rd.uid).isSome))) a' ∧
-      RB (envStep x r) (ioStep cfg (envStep x r) r.accept r.writable (r.reads.filter (fun rd => ((envStep x r).find rd.uid).isSome))) zeroX ∧
+      RB cfg (envStep x r) (ioStep cfg (envStep x r) r.accept r.writable (r.reads.filter (fun rd => ((envStep x r).find rd.uid).isSome))) zeroX ∧
       a'.recvT = a.recvT ∧ a'.recvR = a.recvR ∧ a'.errs = a.errs ∧
       ∀ T, NoRd T → acksOf T = [] →
         goCore cfg (applyDepartures (roundEnv a r) (preM ++ if segs = [] then T else [])) (roundReads a r) (addLast segs T) =
@@ -834,7 +850,7 @@ theorem pre_sim {x : State} {a : A} (hI : MInv cfg x) (hS : Sim cfg x a) (hx : x
         MInv cfg (if r.accept = true then acceptStep cfg x1 else x1) ∧
         Sim cfg (if r.accept = true then acceptStep cfg x1 else x1)
           (applyDepartures (if r.accept = true then { a1 with nAccepted := a1.nAccepted + 1, mods := a1.mods ++ [{ uid := a1.nAccepted + 1 }] } else a1) preM) ∧
-        RB x1 (if r.accept = true then acceptStep cfg x1 else x1) zeroX := by
+        RB cfg x1 (if r.accept = true then acceptStep cfg x1 else x1) zeroX := by
       by_cases hacc : r.accept = true
       · simp only [hacc, if_true]
         obtain ⟨pre, ho, hn, hIa, hSa⟩ := accept_sim ok hfuel hI1 hS1
@@ -882,10 +898,10 @@ omit ok hfuel in
     state `x2` before the section) -/
 theorem tail_sim {x2 : State} {a' : A} (hidle : x2.inTraffic = false) (hS : Sim cfg x2 a')
     (T : List Ev) (hE : EvE x2 (ticks cfg x2) T) (rT rR : List ((Nat × Int) × Nat))
-    (hrT : ∀ q ∈ rT, q.2 ≤ handled (sinceTick .timingTick x2.hist) q.1.2)
-    (hrR : ∀ q ∈ rR, q.2 ≤ handled (sinceTick .trafficTick x2.hist) q.1.2) :
+    (hrT : ∀ q ∈ rT, q.2 ≤ hmgr cfg (sinceTick .timingTick x2.hist) q.1.2)
+    (hrR : ∀ q ∈ rR, q.2 ≤ hmgr cfg (sinceTick .trafficTick x2.hist) q.1.2) :
     Sim cfg (ticks cfg x2) (tailU cfg { a' with mods := depMods a'.mods (closes T), recvT := rT, recvR := rR }) ∧
-    RecvOK (ticks cfg x2) (tailU cfg { a' with mods := depMods a'.mods (closes T), recvT := rT, recvR := rR }) := by
+    RecvOK cfg (ticks cfg x2) (tailU cfg { a' with mods := depMods a'.mods (closes T), recvT := rT, recvR := rR }) := by
   obtain ⟨mk, hh, hmk, ht1, ht2, hnow, hbuf, hid, htT, htR, hseq, htI⟩ := ticks_acc cfg x2 hidle
   refine ⟨?_, ?_⟩
   · generalize ha7 : ({ a' with mods := depMods a'.mods (closes T), recvT := rT, recvR := rR } : A) = a7
@@ -933,14 +949,16 @@ theorem tail_sim {x2 : State} {a' : A} (hidle : x2.inTraffic = false) (hS : Sim 
       · simp only [h1, Bool.false_eq_true, if_false]
         have hn : Mark.timingTick ∉ mk := fun hc => h1 (ht1.mp hc)
         intro q hq
-        exact Nat.le_trans (hrT q hq) (handled_since_mono _ mk _ hn _)
+        refine Nat.le_trans (hrT q hq) ?_
+        rw [sinceTick_append_notin _ mk _ hn, hmgr_append]; omega
     · rw [f15, g1, g3, g7, hh]
       by_cases h2 : x2.now - x2.tTraffic > 1000
       · simp [h2]
       · simp only [h2, if_false]
         have hn : Mark.trafficTick ∉ mk := fun hc => h2 (ht2.mp hc)
         intro q hq
-        exact Nat.le_trans (hrR q hq) (handled_since_mono _ mk _ hn _)
+        refine Nat.le_trans (hrR q hq) ?_
+        rw [sinceTick_append_notin _ mk _ hn, hmgr_append]; omega
 
 /-! ## one whole round -/
 
@@ -950,7 +968,7 @@ theorem sim_of_noErr {x : State} {a b : A} (h : b.noErr = a.noErr) (hs : Sim cfg
   exact ⟨hs.now, hs.tT, hs.tR, hs.tI, hs.seq, hs.nacc, hs.uids, hs.alive, hs.fail, hs.pubT, hs.pubR⟩
 
 omit ok hfuel in
-theorem recvOK_of_noErr {x : State} {a b : A} (h : b.noErr = a.noErr) (hs : RecvOK x a) : RecvOK x b := by
+theorem recvOK_of_noErr {x : State} {a b : A} (h : b.noErr = a.noErr) (hs : RecvOK cfg x a) : RecvOK cfg x b := by
   rw [eq_of_noErr h]; exact ⟨hs.t, hs.r⟩
 
 omit ok hfuel in
@@ -978,7 +996,7 @@ def stepR (cfg : Cfg) (x : State) (r : Round) : State := step cfg { x with out :
 structure RInv (cfg : Cfg) (x : State) (a : A) : Prop where
   inv : MInv cfg x
   sim : Sim cfg x a
-  recv : RecvOK x a
+  recv : RecvOK cfg x a
 
 /-- rounds the generator produces: the manager's own table entry (uid 0) is never "read from" -/
 def RoundOK (r : Round) : Prop := ∀ rd ∈ r.reads, rd.uid ≠ 0
@@ -998,8 +1016,8 @@ theorem round_pre {x : State} {a : A} (h : RInv cfg x a) (hna : MgrNotAll cfg) (
     ∃ x2 T a' rT rR lastIO,
       PreTail cfg x a r x2 T { a' with mods := depMods a'.mods (closes T), recvT := rT, recvR := rR } lastIO ∧
       Sim cfg x2 a' ∧
-      (∀ q ∈ rT, q.2 ≤ handled (sinceTick .timingTick x2.hist) q.1.2) ∧
-      (∀ q ∈ rR, q.2 ≤ handled (sinceTick .trafficTick x2.hist) q.1.2) := by
+      (∀ q ∈ rT, q.2 ≤ hmgr cfg (sinceTick .timingTick x2.hist) q.1.2) ∧
+      (∀ q ∈ rR, q.2 ≤ hmgr cfg (sinceTick .trafficTick x2.hist) q.1.2) := by
   have hI0 : MInv cfg ({ x with out := [] } : State) := minv_same ok hfuel h.inv rfl rfl rfl rfl rfl rfl rfl rfl
   have hS0 : Sim cfg ({ x with out := [] } : State) a :=
     ⟨h.sim.now, h.sim.tT, h.sim.tR, h.sim.tI, h.sim.seq, h.sim.nacc, h.sim.uids, h.sim.alive, h.sim.fail, h.sim.pubT, h.sim.pubR⟩
@@ -1075,10 +1093,10 @@ theorem round_pre {x : State} {a : A} (h : RInv cfg x a) (hna : MgrNotAll cfg) (
     rw [hidle] at hmarks hbd
     have hhist : x2.hist = mk ++ x.hist := hrbe.hist
   · intro q hq
-    rw [hhist, sinceTick_marks hmarks _ (by intro t b e; cases e), handled_append]
-    have hmsc : msc q.1.1 q.1.2 pieces.flatten ≤ handled mk q.1.2 := by
+    rw [hhist, sinceTick_marks hmarks _ (by intro t b e; cases e), hmgr_append]
+    have hmsc : msc q.1.1 q.1.2 pieces.flatten ≤ hmgr cfg mk q.1.2 := by
       have h1 := hbd q.1.1 q.1.2
-      simp only [zeroX, Nat.add_zero] at h1
+      simp only [zeroX, Nat.add_zero, hmgr_eq_mmarks] at h1
       have h2 : msc q.1.1 q.1.2 pieces.flatten ≤ msc q.1.1 q.1.2 ext := by
         rw [hext]
         simp only [pieces, List.flatten_cons, msc_append, msc_flatSegs]
@@ -1090,14 +1108,14 @@ theorem round_pre {x : State} {a : A} (h : RInv cfg x a) (hna : MgrNotAll cfg) (
       have := h.recv.t q (by rw [← heT]; exact hq)
       omega
     · simp only [rT, hse, if_false] at hq
-      have := noteAll_bound pieces a'.recvT (fun k => handled (sinceTick .timingTick x.hist) k.2)
+      have := noteAll_bound pieces a'.recvT (fun k => hmgr cfg (sinceTick .timingTick x.hist) k.2)
         (fun p hp => h.recv.t p (by rw [← heT]; exact hp)) q hq
       omega
   · intro q hq
-    rw [hhist, sinceTick_marks hmarks _ (by intro t b e; cases e), handled_append]
-    have hmsc : msc q.1.1 q.1.2 pieces.flatten ≤ handled mk q.1.2 := by
+    rw [hhist, sinceTick_marks hmarks _ (by intro t b e; cases e), hmgr_append]
+    have hmsc : msc q.1.1 q.1.2 pieces.flatten ≤ hmgr cfg mk q.1.2 := by
       have h1 := hbd q.1.1 q.1.2
-      simp only [zeroX, Nat.add_zero] at h1
+      simp only [zeroX, Nat.add_zero, hmgr_eq_mmarks] at h1
       have h2 : msc q.1.1 q.1.2 pieces.flatten ≤ msc q.1.1 q.1.2 ext := by
         rw [hext]
         simp only [pieces, List.flatten_cons, msc_append, msc_flatSegs]
@@ -1109,7 +1127,7 @@ theorem round_pre {x : State} {a : A} (h : RInv cfg x a) (hna : MgrNotAll cfg) (
       have := h.recv.r q (by rw [← heR]; exact hq)
       omega
     · simp only [rR, hse, if_false] at hq
-      have := noteAll_bound pieces a'.recvR (fun k => handled (sinceTick .trafficTick x.hist) k.2)
+      have := noteAll_bound pieces a'.recvR (fun k => hmgr cfg (sinceTick .trafficTick x.hist) k.2)
         (fun p hp => h.recv.r p (by rw [← heR]; exact hp)) q hq
       omega
 
